@@ -211,7 +211,23 @@ pub struct Shared {
   pub sample: Mutex<Vec<Value>>,
 }
 
+/// Quick tier: one maximal script per kind of post-recovery behaviour.
+fn nested_scripts_quick() -> Vec<Vec<Op>> {
+  let add = Op::Add(0, "B".into(), "2".into());
+  let del = Op::Del(0, "A".into());
+  vec![
+    vec![Op::New(0), Op::Commit(0)],
+    vec![Op::New(0), add.clone(), Op::DropH(0)],
+    vec![Op::New(0), del.clone(), add.clone(), Op::Commit(0)],
+    vec![Op::New(0), Op::Rollback(0), del, Op::Commit(0)],
+    vec![Op::New(0), add, Op::Rollback(0)],
+  ]
+}
+
 fn nested_scripts(max_len: usize) -> Vec<Vec<Op>> {
+  if max_len == 0 {
+    return nested_scripts_quick();
+  }
   let tail = [
     Op::Add(0, "B".into(), "2".into()),
     Op::Del(0, "A".into()),
@@ -236,6 +252,18 @@ fn nested_scripts(max_len: usize) -> Vec<Vec<Op>> {
     out.extend(next.iter().cloned());
     layer = next;
   }
+  // every script that does not already end in commit / drop is also run with a final commit, so
+  // that the state reached after the crash is committed and reopened once more
+  let extended: Vec<Vec<Op>> = out
+    .iter()
+    .filter(|s| s.len() == max_len && !matches!(s.last(), Some(Op::Commit(_)) | Some(Op::DropH(_))))
+    .map(|s| {
+      let mut x = s.clone();
+      x.push(Op::Commit(0));
+      x
+    })
+    .collect();
+  out.extend(extended);
   // keep only maximal scripts: every prefix is covered by the cut enumeration of a longer one
   let all = out.clone();
   out.retain(|s| !all.iter().any(|o| o.len() > s.len() && o[..s.len()] == s[..]));
@@ -390,7 +418,7 @@ fn run_and_enumerate(
       sh.cuts.fetch_add(1, Ordering::Relaxed);
       // the first crash of a chain uses the tier's tear policy; later crashes use the 3-point policy
       let pol = if base.is_none() { sh.policy } else { TearPolicy::Quick };
-      let (images, capped) = fsm.images(pol, sh.nonprefix, sh.image_cap, "MANIFEST.json", &["wal.log"], &|m: &[u8]| manifest_refs(root, m));
+      let (images, capped) = fsm.images(pol, sh.nonprefix, sh.image_cap, "MANIFEST.json", &["wal.log", "MANIFEST.tmp"], &|m: &[u8]| manifest_refs(root, m));
       if capped {
         sh.capped.store(true, Ordering::Relaxed);
       }
@@ -516,7 +544,7 @@ pub fn run_c02(ctx: &Ctx) -> i32 {
     deadline_s: if quick { 40.0 } else { 2400.0 },
     start: std::time::Instant::now(),
     timed_out: std::sync::atomic::AtomicBool::new(false),
-    nested_len: 3,
+    nested_len: if quick { 0 } else { 3 },
     sample: Mutex::new(Vec::new()),
   };
   let nesting = if quick { 2 } else { 3 }; // number of crashes in a row
@@ -548,7 +576,7 @@ pub fn run_c02(ctx: &Ctx) -> i32 {
     println!("VIOLATION property=C02 replay={path}\n  what: {}", v[0].0);
     return 1;
   }
-  let max_depth = if quick { 2 } else { 3 };
+  let max_depth = if quick { 1 } else { 3 };
   let cfg = Config { mem: false, positions: true, handles: 1, compactable: true, max_depth, max_segments: 3, max_queue: 2 };
   let alpha: Vec<Op> = {
     let mut a = vec![Op::New(0)];
@@ -564,10 +592,16 @@ pub fn run_c02(ctx: &Ctx) -> i32 {
     a
   };
   let a = |id: &str, v: &str| Op::Add(0, id.into(), v.into());
+  // roots: empty; one segment; two segments + tombstone; and the same with operations queued, so
+  // that already the first BFS level contains crashes inside non-trivial commits and rollbacks
   let roots: Vec<Vec<Op>> = vec![
     vec![],
     vec![Op::New(0), a("A", "1"), Op::Commit(0)],
     vec![Op::New(0), a("A", "1"), a("B", "1"), Op::Commit(0), a("A", "2"), Op::Commit(0)],
+    vec![Op::New(0), a("A", "1")],
+    vec![Op::New(0), a("A", "1"), Op::Commit(0), a("B", "1")],
+    vec![Op::New(0), a("A", "1"), Op::Commit(0), a("A", "2"), Op::Del(0, "A".into())],
+    vec![Op::New(0), a("A", "1"), a("B", "1"), Op::Commit(0), a("A", "2"), Op::Commit(0), Op::Del(0, "B".into())],
   ];
   let mut seen: HashSet<String> = HashSet::new();
   let mut frontier: Vec<(Vec<Op>, Model, usize)> = Vec::new();
@@ -671,7 +705,7 @@ pub fn run_c02(ctx: &Ctx) -> i32 {
     "recoveries_executed" => sh.recoveries.load(Ordering::Relaxed),
     "nested_crash_states" => sh.nested_states.load(Ordering::Relaxed),
     "crashes_in_a_row" => nesting,
-    "post_recovery_script_len" => sh.nested_len,
+    "post_recovery_scripts" => if sh.nested_len == 0 { "5 curated maximal scripts: [new commit] [new add drop] [new del add commit] [new rollback del commit] [new add rollback]".to_string() } else { format!("all maximal scripts of length <= {} over {{new, add, del, drop, commit, rollback}}, plus a final commit", sh.nested_len) },
     "distinct_nontrivial" => sh.nontrivial.load(Ordering::Relaxed),
     "rule" => "level 0: BFS over writer histories (as C01), crash at every syscall boundary of the last op, every durable image of model M; each recovered image (deduplicated on image bytes + model state + remaining depth) becomes the start of every maximal post-recovery script over {new, add(B2), del(A), drop(sync), commit, rollback}, itself crashed at every syscall boundary of every op, recursively. Oracle per crash: reopen works; contents are the pre or in-flight-commit post state; the recovered queue (Wal::last_pending_ops) is a prefix of the queued operations containing every operation followed by a successful log sync; a new writer + commit yields exactly committed (+) recovered queue. An image is non-trivial when it differs from the no-crash directory.",
     "depth_completed" => depth_done,
